@@ -119,8 +119,10 @@ class TrackerCase(Case):
                 data["transformed_results"] = tuple(tres)
             h.handle_event(Event(event_type=EventType.FINISHED_EVALUATION, config=None,
                                  source=src_tracked if tracked else src_other, data=data))
-            if e == 0:  # other event types never change the tracker
-                h.handle_event(Event(event_type=EventType.START_EVALUATION, config=None, source=src_tracked, data={}))
+            # other event types (a new step of a tracked or another source starting, evaluations starting) never change the tracker
+            for et in (EventType.START_EVALUATION, EventType.FINISHED_OPTIMIZER_STEP, EventType.START_OPTIMIZER_STEP, EventType.START_EVALUATOR_STEP):
+                h.handle_event(Event(event_type=et, config=None, source=src_tracked if e % 2 == 0 else src_other, data={}))
+                h.handle_event(Event(event_type=et, config=None, source=src_tracked, data={}))
         held = h["results"]
         which = next((i for i, it in user_items if it is held), "foreign" if held is not None else None)
         return {"held": which}
